@@ -3,11 +3,15 @@
 package props
 
 import (
+	"context"
 	"encoding/hex"
 	"encoding/json"
 	"fmt"
+	"os/exec"
 	"runtime"
 	"sort"
+	"strings"
+	"time"
 
 	"verifh/gen"
 	"verifh/mon"
@@ -142,4 +146,51 @@ func unusedField(x uint64) uint64 {
 	}
 	tab := []uint64{1, 2, 9, 10, 11, 12, 30, 100, 255, 1 << 16, 1<<31 - 1, 1 << 31, 1<<32 - 1, 1 << 32, 1<<63 - 1, 1 << 63, ^uint64(0)}
 	return tab[(x>>1)%uint64(len(tab))]
+}
+
+// runArch386 runs the reduced differential of cmd/arch386 (built with GOARCH=386: 32-bit int and uint) for this
+// property and merges what it observed. The program carries its own oracle (the same reference models).
+func runArch386(c *Ctx) {
+	r := c.R
+	bin := c.Env["VERIF_ARCH386_BIN"]
+	if bin == "" {
+		r.Inconclusive("32-bit (GOARCH=386) differential not run: the 386 build of the harness part was not provided by bin/check")
+		return
+	}
+	scale := 1
+	if c.Thorough {
+		scale = 10
+	}
+	ctx, cancel := context.WithTimeout(context.Background(), 20*time.Minute)
+	defer cancel()
+	out, err := exec.CommandContext(ctx, bin, r.Prop, fmt.Sprint(c.Seed), fmt.Sprint(scale)).CombinedOutput()
+	done := false
+	for _, ln := range strings.Split(string(out), "\n") {
+		if !strings.HasPrefix(ln, "{") {
+			continue
+		}
+		var v struct {
+			Signature, What, Case, Expected, Observed string
+			Evaluations, IntBits                      int `json:",omitempty"`
+		}
+		var fin struct {
+			Evaluations int `json:"evaluations"`
+			IntBits     int `json:"int_bits"`
+		}
+		if json.Unmarshal([]byte(ln), &fin) == nil && fin.IntBits != 0 {
+			done = true
+			r.Eval(fin.Evaluations)
+			r.Count("evaluations_on_a_32bit_build(GOARCH=386)", fin.Evaluations)
+			if fin.IntBits != 32 {
+				r.Inconclusive("the 386 differential did not run with a 32-bit int")
+			}
+			continue
+		}
+		if json.Unmarshal([]byte(ln), &v) == nil && v.Signature != "" {
+			r.Violate(v.Signature, v.What, "none", v.Case, v.Expected, v.Observed)
+		}
+	}
+	if !done {
+		r.Inconclusive(fmt.Sprintf("the 386 differential ended without its summary line (%v): %s", err, clipS(string(out))))
+	}
 }
